@@ -218,6 +218,7 @@ func (in *Instance) Verify() (*vc.Engine, error) {
 	ctx := &Ctx{In: in, E: e, types: map[string]*geval.SymType{}}
 	RegisterSpecs(ctx)
 	e.Hook = ctx.UserMethodHook
+	e.TraceOn = true
 	vc.ConvHook = convHook
 	e.AddFuncs(in.Pkg, in.Info, []*ast.File{in.File})
 	// Go types of the prelude that stand for symbolic types
@@ -298,10 +299,17 @@ func (in *Instance) Verify() (*vc.Engine, error) {
 		}
 		if fn.Decl.Body != nil {
 			// the function this path defines: parameter names come from the emitted text
+			sigPs := ps
 			ps = nil
 			for _, fl := range fn.Decl.Type.Params.List {
 				for _, nm := range fl.Names {
 					ps = append(ps, nm.Name)
+				}
+			}
+			// the O-clauses name parameters as o-sig does; the emitted text may differ
+			for i, sn := range sigPs {
+				if i < len(ps) && ps[i] != sn {
+					cs.Ghost[pkgName+"."+sn] = &spec.Ident{Name: ps[i]}
 				}
 			}
 			targets = append(targets, key)
